@@ -744,6 +744,20 @@ class CxxEvaluator(Evaluator):
         args = [conv(a, p.get("t")) for p, a in zip(func["params"], args)] + list(args[len(func["params"]):])
         return conv(Evaluator.call(self, func, this, args), func.get("ret"))
 
+    def _resolve_virtual(self, cls, fn, nargs, depth=0):
+        cands = [f for f in self.prog.funcs.values() if f.get("cls") == cls and f["n"] == fn and len(f["params"]) == nargs and f.get("body") is not None]
+        if len(cands) == 1:
+            return cands[0]
+        if len(cands) > 1:
+            raise Broken("virtual call of %s::%s is ambiguous" % (cls, fn))
+        if depth < 5:
+            for b in (self.prog.records.get(cls) or {}).get("bases", []):
+                bn = b if isinstance(b, str) else (b.get("t") or "")
+                r = self._resolve_virtual(bn, fn, nargs, depth + 1)
+                if r is not None:
+                    return r
+        return None
+
     def new_object(self, cls, args=()):
         """an instance of a repository class: built by its constructor of that arity when the facts have one (this runs the default
         member initialisers too), otherwise an object without fields"""
@@ -1062,9 +1076,30 @@ class CxxEvaluator(Evaluator):
                     cands = exact
             if len(cands) == 1:
                 return self.construct(cands[0], Obj(T), args)
+            if not cands and not args and T in self.prog.records:
+                return self.new_object(T)         # implicit default constructor
             if len(args) == 1 and isinstance(args[0], Obj) and args[0]._cls == T:
                 return args[0].copy_value()
             raise Broken("cannot resolve the constructor of %s with %d arguments (%d candidates)" % (T, len(args), len(cands)))
+        if k == "call" and e.get("virt") and e.get("own") and e.get("obj") is not None and self.prog is not None and self.hook_for(e.get("f", "")) is None:
+            # virtual call on an interpreted object: dispatch on the object's dynamic class
+            o = self.eval(e["obj"], env, this)
+            args = [self.eval(a, env, this) for a in e.get("a", [])]
+            target = None
+            if isinstance(o, Obj):
+                target = self._resolve_virtual(o._cls, e.get("fn"), len(args))
+            if target is None:
+                static = self.prog.funcs.get(e.get("fid"))
+                h = self.hooks.get("method:" + e["fn"]) if e.get("fn") else None
+                if static is not None and static.get("body") is not None:
+                    target = static
+                elif h is not None:
+                    return h(self, o, args)
+                else:
+                    raise Broken("virtual call of %s on %s cannot be resolved (at %s)" % (e.get("f"), getattr(o, "_cls", type(o).__name__), e.get("l")))
+            r_ = self.call(target, o, args)
+            self.copy_out(target["params"], e.get("a", []), self._last_env, env, this)
+            return r_
         if k == "call" and e.get("fn") == "operator<<" and e.get("a") and not (self.prog is not None and (self.prog.funcs.get(e.get("fid")) or {}).get("body") is not None):
             # insertion into a std::ostream (member or free operator<< of the library)
             aa = ([e["obj"]] if e.get("obj") is not None else []) + list(e["a"])
